@@ -318,6 +318,19 @@ theorem C18_values_never_lost (lib : List Nat) (r : Nat) (f : File) (hwf : WF f)
   obtain ⟨y, hy, hv⟩ := h2 p x hx
   exact ⟨y, lookup_of_mem h1 hy, hv⟩
 
+/-- A file interrupted between steps reads as before: at every interruption point `k` (any prefix of the step list,
+also when the run was refused at an earlier step) every property is there with the same dtype, values, unit and
+definition (a converted one in the new layout, the others in the old), every array reads the same data, unit, label
+and dimensions (alias range dimensions: ticks, unit, label, converted or not), everything else is untouched; and
+before the last step the version is still the old one. For every file. -/
+theorem C18_interrupted_reads_same (lib : List Nat) (r k : Nat) (f : File) (hwf : WF f) :
+    (∀ p x, (p, x) ∈ f.props → ∃ y, lookup (interrupt lib r k f).1.props p = some y ∧ y.view = x.view) ∧
+    (interrupt lib r k f).1.arrays.map arrView = f.arrays.map arrView ∧
+    (interrupt lib r k f).1.other = f.other ∧
+    (k < (collect lib f).length → (interrupt lib r k f).1.version = f.version) :=
+  ⟨(C18_values_never_lost lib r f hwf _).1, (interrupt_rest_kept k hwf).1, (interrupt_rest_kept k hwf).2,
+   fun hk => (C18_version_old_while_interrupted lib r k f hk).1⟩
+
 /-- An upgrade that fails (returns `False`) has not raised the version: the file is still recognised as old. -/
 theorem C18_failed_stays_old (lib : List Nat) (r : Nat) (f : File) (h : (upgrade lib r f).2 ≠ none) :
     (upgrade lib r f).1.version = f.version ∧
@@ -600,6 +613,15 @@ example : (runSteps [1, 2, 1] 2 (interrupt [1, 2, 1] 1 2 sample).1 (collect [1, 
     (runSteps [1, 2, 1] 2 (interrupt [1, 2, 1] 1 2 sample).1 ((collect [1, 2, 1] sample).take 2)).1
       = (interrupt [1, 2, 1] 1 2 sample).1 ∧
     (runSteps [1, 2, 1] 2 (interrupt [1, 2, 1] 1 2 sample).1 (collect [1, 2, 1] sample)).1.version = [1, 2, 1] := by
+  unfold interrupt
+  rw [sample_collect]
+  decide +kernel
+/-- `C18_interrupted_reads_same` where something was converted: cut before the bump, the alias dimension of `sample`
+has its link group and reads the array as before -/
+example : ((interrupt [1, 2, 1] 1 4 sample).1.arrays.map fun a => a.dims.map fun d => (d.link.isSome, d.alias, readDim a d))
+      = [[(true, false, ⟨"[1/1]", some "s", none⟩)]] ∧
+    (sample.arrays.map fun a => a.dims.map fun d => (d.link.isSome, d.alias, readDim a d))
+      = [[(false, true, ⟨"[1/1]", some "s", none⟩)]] := by
   unfold interrupt
   rw [sample_collect]
   decide +kernel
